@@ -218,7 +218,8 @@ def cmd_argv(world):
         if o.get("dryRun"):
             a.append(b"--dry-run")
         a += [b"-v"] * o.get("verbose", 0)
-        a.append(b"-i" if o.get("interactive") else b"-f")
+        if not o.get("ttyDefault"):
+            a.append(b"-i" if o.get("interactive") else b"-f")       # ttyDefault: the mode follows isatty(stdin)
         if o.get("days") is not None:
             a.append(b"%d" % o["days"])
         return a
